@@ -286,6 +286,29 @@ impl LogState {
                 // TODO(maybe): Reuse status buffer between iterations.
                 self.status = String::new();
             }
+            // A record can follow a partial line that the script left unterminated
+            // ("checking for foo... " and then a nested redo-ifchange, whose "do" record
+            // lands behind it on the same line).  Taken as plain text, the record was
+            // printed but the target it announces was never followed: all of that target's
+            // output was missing, live and in later replays.  Split such a line: the text
+            // in front is an (unterminated) line of this target, the rest is the record.
+            if let Some(pos) = line.find("@@REDO:") {
+                if pos > 0 && Meta::parse(line[pos..].trim_end_matches('\n')).is_ok() {
+                    if auto_bool_arg(&matches, "details").unwrap_or(true) {
+                        if interrupted != 0 {
+                            let d = logs::reduce_depth();
+                            logs::meta("resumed", t.as_str(), None);
+                            logs::set_depth(d);
+                            interrupted = 0;
+                        }
+                        let mut head = line[..pos].to_string();
+                        head.push('\n');
+                        logs::write(&clean_line(&head));
+                        lines_written += 1;
+                    }
+                    line = line[pos..].to_string();
+                }
+            }
             match Meta::parse(line.trim_end_matches('\n')) {
                 Ok(g) => {
                     // FIXME: print prefix if @@REDO is not at start of line.
